@@ -260,6 +260,19 @@ def _seq_at(toks, sg, k, words):
     return all(toks[sg[k + j]].text == w for j, w in enumerate(words))
 
 
+def _seq_at_anchor(toks, sg, k, words):
+    """anchor lookup (//@before, //@after, //@blocktail): like _seq_at, but a trailing comma in front of a closing bracket (what
+    rustfmt adds when it breaks an argument list over several lines) is skipped in the source"""
+    x = k
+    for w in words:
+        if x < len(sg) and toks[sg[x]].text == "," and w in (")", "]", "}") and x + 1 < len(sg) and toks[sg[x + 1]].text == w:
+            x += 1
+        if x >= len(sg) or toks[sg[x]].text != w:
+            return False
+        x += 1
+    return True
+
+
 def rw_R1(rf, a, b):
     """dyn X + Send + 'static -> dyn X   (marker bounds on trait objects)"""
     toks, sg, out = rf.toks, _sig(rf.toks, a, b), []
@@ -1699,11 +1712,11 @@ class Unit:
             if " @after " in tok:
                 tok, after_pat = tok.split(" @after ", 1)
             words = [t.text for t in L.tokenize(tok) if t.kind != "ws"]
-            occ = [x for x in range(len(sgb)) if _seq_at(toks, sgb, x, words)]
+            occ = [x for x in range(len(sgb)) if _seq_at_anchor(toks, sgb, x, words)]
             if after_pat is not None:
                 # k-th occurrence of <token> AFTER the first occurrence of the anchor pattern
                 aw = [t.text for t in L.tokenize(after_pat) if t.kind != "ws"]
-                ao = [x for x in range(len(sgb)) if _seq_at(toks, sgb, x, aw)]
+                ao = [x for x in range(len(sgb)) if _seq_at_anchor(toks, sgb, x, aw)]
                 occ = [x for x in occ if ao and x > ao[0]] if ao else []
             if optional and (k < 1 or k > len(occ)):
                 # the guarded statement is gone: the function's ensures still stand; obligations that speak about ghost
@@ -1806,7 +1819,7 @@ class Unit:
             if optional:
                 tok = tok[:-len(" ?optional")]
             words = [t.text for t in L.tokenize(tok) if t.kind != "ws"]
-            occ = [x for x in range(len(sgb)) if _seq_at(toks, sgb, x, words)]
+            occ = [x for x in range(len(sgb)) if _seq_at_anchor(toks, sgb, x, words)]
             if optional and (k < 1 or k > len(occ)):
                 self.lost_ghost.setdefault(qual, set()).update(_ghost_names(lines))
                 self.lost_optional.setdefault(qual, []).append("after? %d %s" % (k, tok))
@@ -1836,7 +1849,7 @@ class Unit:
             # text in front of the tail expression (or the closing brace) of the block that encloses the anchor statement:
             # the point where the locals of that block are about to be dropped
             words = [t.text for t in L.tokenize(tok) if t.kind != "ws"]
-            occ = [x for x in range(len(sgb)) if _seq_at(toks, sgb, x, words)]
+            occ = [x for x in range(len(sgb)) if _seq_at_anchor(toks, sgb, x, words)]
             if k < 1 or k > len(occ):
                 raise Undecided("lost anchor: occurrence %d of `%s` in %s (%d found)" % (k, tok, qual, len(occ)))
             x = occ[k - 1]
